@@ -324,6 +324,10 @@ pub fn c11(thorough: bool, replay: Option<String>) -> i32 {
                 } else if a == b {
                     st.outcome("cldb-trace-equals-run-output-trace");
                     st.nontrivial(&(&c.text, opt));
+                } else if !mine.ended && mine.panic.is_none() && a.len() >= b.len() && a[..b.len()] == b[..] {
+                    // the harness's own stepping stopped at its step bound: the comparison covers that prefix
+                    st.outcome("cldb-trace-equals-run-output-trace(up to the harness step bound)");
+                    st.nontrivial(&(&c.text, opt));
                 } else {
                     st.outcome("CLDB-TRACE-DIFFERS");
                     let k = a.iter().zip(b.iter()).position(|(x, y)| x != y).unwrap_or(a.len().min(b.len()));
